@@ -30,7 +30,10 @@ def stream(file=sys.stdout):
         yield package.pkg
         for res in package:
             yield res_writer(res)
+            # nothing may stay in the file object's buffer: were the flow to fail now, the buffered separator
+            # would be written whenever that object is finalised, possibly into a checkpoint committed later
             file.write('\n')
+            file.flush()
         file.close()
         if filename:
             os.rename(filename, filename[:-len(ACTIVE_SUFFIX)])
